@@ -5,6 +5,9 @@ CHECKS = {
     "C01": ("bounded-exhaustive enumeration (deviation-bounded choice exploration) of generated programs, each executed on the real parser",
             "every program of model G within the stated deviation/depth bounds is parsed, printed, re-parsed and re-printed under both standards and both comment settings; no sampling",
             _NOTE, "DESIGN.md 4/C01"),
+    "C02": ("bounded-exhaustive enumeration of generated programs; independent lexer + named canonicalisation rules, token-by-token comparison",
+            "for every program of model G within the bounds the regenerated text carries exactly the source's token sequence (names, literals, labels character for character) up to the canonicalisation rules listed in mc/normalise.py",
+            _NOTE + "; the canonicalisation rule list (DESIGN.md 4/C02)", "DESIGN.md 4/C02"),
     "C10": ("bounded-exhaustive enumeration of generated programs; structural invariants evaluated on every node of every tree (first parse and re-parse)",
             "every tree produced for model G within the bounds (both standards, comments kept/dropped, plus backtracking-heavy inputs) satisfies the parent/children/get_root/walk invariants on every node",
             _NOTE, "DESIGN.md 4/C10"),
